@@ -23,7 +23,7 @@ def corpus():
 
 def run(tier):
     rep = core.Report("C07", tier, "exploration")
-    rep.rule = ("stack grid: 33 nesting constructs (brackets, emphasis, quotes, CriticMarkup, math, braces, block-quote and list staircases, nested definitions, fences in lists, HTML) x {openers only, matched, closers only} x depth ladder x "
+    rep.rule = ("stack grid: 37 nesting constructs (brackets, emphasis, quotes, CriticMarkup, math, braces, block-quote and list staircases, nested definitions, fences in lists, HTML) x {openers only, matched, closers only} x depth ladder x "
                 "{html, latex, fodt, opml, itmz, critic accept/reject, OPML import} under an 8 MB stack, with and without the token pool: the call must return; cost grid: for every seed d (each line kind, block seeds, the published pathological patterns, the repository's test documents) "
                 "and doubling k, executed basic blocks + bytes touched by libc string functions must satisfy cost(d^2k)/cost(d^k) <= 2.6; distinct = distinct output/cost hashes")
     rep.assumptions = ["a (construct, depth) cell that exceeds the per-case time cap is reported as not covered, never as a failure", "the cost threshold 2.6 sits between n log n (<= 2.2) and quadratic (-> 4) and was fixed before measuring"]
